@@ -110,6 +110,99 @@ def ux_comp_reference():
     return z
 
 
+def false_match_ed(rng, rm):
+    """An invalid truncated Ed25519 signature for which the search *does* meet a table hit: V - i*U = +-W where W is a point of
+    the prime-order subgroup whose Montgomery coordinate agrees with that of the table point j*I*U on the 48 bits the table keeps,
+    and on nothing else. (V = 8(R + kA - (s0 + 2^251)B); with R = W/8 + rB and A = aB the condition is r + ka - 2^251 - s0 = i*2^n,
+    reached by grinding the message.) Every candidate the hit proposes is wrong: nothing may be returned."""
+    import hashlib
+    C = ED25519
+    p, L = C.p, C.L
+    m = rm - 5
+    nJ = min(14, m)
+    nI = m - nJ
+    n = 256 - rm
+    j = rng.randrange(1, (1 << nJ) + 1)
+    Uj = C.mul((j << (14 - nJ)) << 240, C.B)
+    u48 = C.to_montgomery_u(Uj) & ((1 << 48) - 1)
+    Wp = None
+    for _ in range(400):
+        u = u48 + (rng.getrandbits(206) << 48)
+        if u >= p or (u + 1) % p == 0:
+            continue
+        y = (u - 1) * pow(u + 1, -1, p) % p
+        x = C.recover_x(y, rng.randrange(2))
+        if x is None:
+            continue
+        Wp = (x, y)
+        if C.in_subgroup(Wp) and not C.eq(Wp, Uj) and not C.eq(Wp, C.neg(Uj)):
+            break
+        Wp = None
+    if Wp is None:
+        return None
+    W8 = C.mul(pow(8, -1, L), Wp)
+    a = rng.randrange(1, L); r = rng.randrange(1, L)
+    A = C.mul_base(a)
+    R = C.add(W8, C.mul_base(r))
+    Ab, Rb = C.encode(A), C.encode(R)
+    pre = rb(rng, 8)
+    for ctr in range(1 << 19):
+        M = pre + ctr.to_bytes(4, "little")
+        k = int.from_bytes(hashlib.sha512(Rb + Ab + M).digest(), "little") % L
+        S = (r + k * a - (1 << 251)) % L
+        if S < (1 << (n + nI)):
+            i = S >> n
+            s0 = S - (i << n)
+            inp = overwrite_last_bits(Rb + s0.to_bytes(32, "little"), rm, "random", rng)
+            return Ab, inp, M, i
+    return None
+
+
+def false_match_p256(rng, rm):
+    """An invalid truncated P-256 signature and a public key for which some V_j has the x coordinate of a table point U_i on the
+    48 bits the search table keeps (and differs elsewhere). Q = (V - hG)/r with V = W + jU."""
+    Cw = W.P256
+    N = Cw.n
+    n = 256 - rm
+    m = 255 - n
+    k = (m + 1) >> 1
+    I = 1 << (m - k); J = 1 << k
+    while True:
+        R0 = Cw.mulgen(rng.randrange(1, N))
+        r = R0[0]
+        if 0 < r < N:
+            break
+    R = Cw.lift_x(r, 0)
+    s0 = rng.getrandbits(n)
+    U = Cw.mul(pow(2, n, N), R)
+    Uk = Cw.mul(pow(2, k, N), U)
+    i = rng.choice([0, I, rng.randrange(I + 1)])
+    Ui = Cw.add(Cw.mul(s0, R), Cw.mul(i, Uk)) if s0 else Cw.mul(i, Uk)
+    if Cw.is_inf(Ui):
+        return None
+    x48 = Ui[0] & ((1 << 48) - 1)
+    Wp = None
+    for _ in range(64):
+        x = x48 + (rng.getrandbits(208) << 48)
+        if x >= Cw.p or x == Ui[0]:
+            continue
+        Wp = Cw.lift_x(x, rng.randrange(2))
+        if Wp is not None:
+            break
+    if Wp is None:
+        return None
+    j = rng.choice([0, J, rng.randrange(J + 1)])
+    V = Cw.add(Wp, Cw.mul(j, U)) if j else Wp
+    hv = rb(rng, 32)
+    h = int.from_bytes(hv, "big") % N
+    T = Cw.sub(V, Cw.mulgen(h)) if h else V
+    if Cw.is_inf(T):
+        return None
+    Q = Cw.mul(pow(r, -1, N), T)
+    inp = overwrite_last_bits(r.to_bytes(32, "big") + s0.to_bytes(32, "little"), rm, "random", rng)
+    return Q, inp, hv, (i, j)
+
+
 def gen(rng, shard, nshards, n_ed, n_p256, table, rms):
     cases = []
     if table and shard == 0:
@@ -148,6 +241,21 @@ def gen(rng, shard, nshards, n_ed, n_p256, table, rms):
                                ["ux-index-sweep"] + (["ux-index-sweep:j=0"] if j == 0 else []) + (["ux-index-sweep:j=16383+"] if j >= 16383 else []), "table index sweep"))
         if want:
             cases.append(case1("ping", "ORACLE-INCOMPLETE: %d table indices not reached by grinding" % len(want), ["ux-index-sweep-incomplete"]))
+    # ---- constructed table hits on invalid input ----
+    for it in range(max(2, n_ed // 25)):
+        rm = rng.choice(rms)
+        fm = false_match_ed(rng, rm)
+        if fm is not None:
+            Ab, inp, M, i = fm
+            cases.append(case1("s ed25519 vtrunc %s %s %d raw - %s" % (Ab.hex(), inp.hex(), rm, M.hex()), expect_ed(Ab, inp, rm, M, None, False, None),
+                               ["false-match-ed25519", "false-match-ed25519:" + ("i=0" if i == 0 else "i>0"), "false-match-ed25519:rm" + ("<=19" if rm <= 19 else ">19")],
+                               "constructed 48-bit table hit"))
+        rm = rng.choice(rms)
+        fm = false_match_p256(rng, rm)
+        if fm is not None:
+            Q, inp, hv, (i, j) = fm
+            cases.append(case1("s p256 vtrunc %s %s %d %s" % (W.P256.encode_compressed(Q).hex(), inp.hex(), rm, hv.hex()), expect_p256(Q, inp, rm, hv, None),
+                               ["false-match-p256", "false-match-p256:" + ("j=0" if j == 0 else "j>0")], "constructed 48-bit table hit"))
     # ---- Ed25519 ----
     for it in range(n_ed):
         seed = rb(rng, 32)
@@ -339,7 +447,9 @@ def main(argv):
                 "ones / random / original values (completeness: exact reconstruction); messages ground so that the hidden part of S is minimal / "
                 "maximal for rm <= 13; corrupted prefixes (R or r bit flips, kept-bit flips, kept bits off by one unit, other message, random, "
                 "the other ECDSA root) where anything returned must verify under the reference verifier and be a completion of the supplied "
-                "prefix; prepare_truncate on boundary and short forms; complete recomputation of the 16385-entry UX_COMP table. "
+                "prefix; constructed inputs where an invalid prefix meets a genuine 48-bit hit in the search table (Ed25519: a subgroup point sharing "
+                "the kept 48 bits of a table entry placed on the walk; P-256: a public key computed so that some V_j shares 48 bits with some U_i); "
+                "prepare_truncate on boundary and short forms; complete recomputation of the 16385-entry UX_COMP table. "
                 "distinct_nontrivial = distinct requests")
     rep.assumptions = ["reference verifiers ref_ed / ref_weier", "rm outside 8..32 is outside the documented domain and not generated"]
     try:
@@ -357,7 +467,7 @@ def main(argv):
         rep.extra["ux_table_indices_swept_at_rm19"] = rep.classes.get("ux-index-sweep", 0)
         rep.extra["ux_comp_entries_checked"] = 16385 if rep.classes.get("ux_comp-slice", 0) >= 17 else 0
         rep.require("ux_comp-slice", "ux-index-sweep", "ux-index-sweep:j=0", "ed25519", "p256", "complete", "corrupt", "rm=8", "rm=32", "rm=16", "fill=ones", "fill=zero", "hidden-min", "hidden-max",
-                    "corrupt-R", "kept-bits-off-by-one", "other-root", "negated-low-part", "s-negated-by-preparation", "p256-prepare:some", "p256-prepare:none", "p256-prepare:len=other")
+                    "corrupt-R", "kept-bits-off-by-one", "other-root", "negated-low-part", "s-negated-by-preparation", "false-match-ed25519", "false-match-ed25519:i>0", "false-match-p256", "p256-prepare:some", "p256-prepare:none", "p256-prepare:len=other")
     except Inconclusive as e:
         rep.incon.append(str(e))
     return rep.finish()
